@@ -250,10 +250,11 @@ def gen_only_mutants(spec, k):
         out.append((what, s))
     if withr:
         F = lambda n: {'type': 'field', 'name': n}
-        kind = k % 4
+        kind = k % 5
         if kind == 0: add('set operation over an untyped operand', {'type': r.choice(['union', 'intersection', 'difference']), 'lhs': F('noSuchField'), 'rhs': F(r.choice(fields))})
         if kind == 1: add('unknown subtype', {'type': 'subType', 'subType': 'NoSuchAsset', 'stepExpression': F(r.choice(fields + ['noSuchField']))})
         if kind == 2: add('unknown variable', {'type': 'variable', 'name': 'noSuchVariable'})
+        if kind == 4: add('subtype of an untyped operand', {'type': 'subType', 'subType': r.choice(spec['assets'])['name'], 'stepExpression': F('noSuchField')})
         if kind == 3: add('variable of an untyped operand', {'type': 'collect', 'lhs': F('noSuchField'), 'rhs': {'type': 'variable', 'name': 'noSuchVariable'}})
     # (cyclic `extends` is not drawn: the real constructor then either ends in RecursionError or does not end at all - the
     # `while associated_assets != []` walk over cyclic `sub_assets` - see notes/NOTES_genexec2_lang.md for the one-off run)
@@ -390,6 +391,11 @@ def run(seed, tier, lean) -> Result:
             res.bump(f'ill-formed (generated code only): {what} -> {raised}')
             if 'error' in gout[i]:
                 res.violations.append(genexec.driver_error('C15', gout[i]['error'], {'spec': s, 'what': what}))
+            elif what == 'subtype of an untyped operand' and raised == 'AttributeError' and gout[i]['model'].get('error') == 'LanguageGraphStepExpressionError':
+                # FINDING of this round (notes/NOTES_genexec2_lang.md, not repaired): the translator drops `logger.error(...)`
+                # statements with their arguments; in the `subType` case the argument `result_target_asset.name` raises
+                # AttributeError when the operand is untyped.  Both sides reject, the classes differ: counted, not reported
+                res.bump('generated_code_known_class_difference (dropped logger argument): ' + what)
             elif gout[i]['model'].get('error') != (None if raised is None else gen_class(raised)):
                 res.violations.append(genexec.divergence('C15', '_generate_graph', f'on the exception an ill-formed language ({what}) ends in: the implementation '
                     f'{"raises " + raised if raised else "returns a language graph"}, the generated code {"raises " + gout[i]["model"]["error"] if "error" in gout[i]["model"] else "returns a language graph"}',
@@ -436,8 +442,12 @@ def genexec_measure(seed: int, n: int) -> dict:
         except RecursionError: return None, 'RecursionError'
         except CaseTimeout: return None, 'timeout'
         except Exception as e: return None, type(e).__name__
+    kinds = stats['gen_ne_impl_kinds'] = {}
     def classify(hand_same, gen_same, info):
-        if not gen_same: stats['gen_ne_impl'] += 1; note('gen!=impl', info)
+        if not gen_same:
+            stats['gen_ne_impl'] += 1; note('gen!=impl', info)
+            k = info.get('gen_differs') or f"impl {info.get('impl_err') or 'returns'} / generated {info.get('gen_err')}"
+            kinds[k] = kinds.get(k, 0) + 1
         if not hand_same:
             stats['impl_ne_hand'] += 1
             if gen_same: stats['gen_follows_impl'] += 1; note('gen=impl!=hand', info)
